@@ -11,7 +11,7 @@
 (*   {"e":"LogEnd","t"}                the macro returned; t is Steady from now on                             *)
 (*   {"e":"Alloc","t"} {"e":"Mmap","t"}  malloc/calloc/realloc/memalign/operator new resp. mmap called by t    *)
 (*   {"e":"Format","t","kind"}         a user formatter of a deferred- resp. direct-format type ran on t        *)
-EXTENDS Naturals, Sequences, FiniteSets, TLC, Json, IOUtils
+EXTENDS Integers, Sequences, FiniteSets, TLC, Json, IOUtils
 TraceLog == ndJsonDeserialize(IOEnv.TRACE)
 VARIABLES l, backend, st, inlog, ok
 vars == <<l, backend, st, inlog, ok>>
